@@ -103,6 +103,18 @@ async fn build_victim(root: &std::path::PathBuf) -> Result<Victim, String> {
         a.barrier().await;
         rooms.push(RoomFix { class, id: room.id, ro: room.ro.clone(), p: pid, q: qid, room_obj: None });
     }
+    // references across rooms: every row P of another room points to the member room's Q row, and the member
+    // room's P row points to every other room's Q row (a reference belongs to the room of its SOURCE row)
+    {
+        set_clock(tick(2) + 500);
+        let a = &u.peers[0];
+        let (mp, mq) = (rooms[0].p, rooms[0].q);
+        for f in rooms.iter().skip(1) {
+            a.mutate("mutate { ns.P { id:$p qs:[{id:$q}] } }", Some(params(&[("p", b64(&f.p)), ("q", b64(&mq))]))).await?;
+            a.mutate("mutate { ns.P { id:$p qs:[{id:$q}] } }", Some(params(&[("p", b64(&mp)), ("q", b64(&f.q))]))).await?;
+        }
+        a.barrier().await;
+    }
     // the in-memory rooms, as the local event carries them
     loop {
         match ev_rx.try_recv() {
